@@ -117,6 +117,10 @@ def gen_cases(rng, tier):
   szs = spec.edge_sizes(tier, multiple_of=4, lo=8)
   for c0 in range(0, len(szs), 12):
     cases.append({"kind": "sizes", "sizes": szs[c0:c0 + 12], "route": "api_legacy", "model": None, "style": 0})
+  # one table of many long blocks: 7 x 2^17 rows (about 30 MB); thorough: also 12 x 2^17
+  cases.insert(0, {"kind": "many_long_blocks", "n": 1 << 17, "npots": 7, "route": "api_class", "model": None, "style": 0})
+  if tier != "quick":
+    cases.insert(1, {"kind": "many_long_blocks", "n": 1 << 17, "npots": 12, "route": "api_class", "model": None, "style": 0})
   return cases
 
 
@@ -165,6 +169,12 @@ def run_reject(case, ctx, model, route, rng):
 
 
 def run_case(case, ctx):
+  if case.get("kind") == "many_long_blocks":
+    import sizesweep
+    ctx.cls("kind:many_long_blocks")
+    if sizesweep.check_dlpoly_many(ctx, case["n"], case["npots"]):
+      ctx.nontrivial(True)
+    return
   if case.get("kind") == "sizes":
     import sizesweep
     ctx.cls("kind:row_count_sweep")
